@@ -119,11 +119,43 @@ a buffered Del (Update/Replace … followed by Del is included since repo commit
 that was not stored
 (Add→Update, Add→Del, Add→Del→Add, Replace→Replace→Del …) there is no restriction. -/
 theorem multi_op_refines_partial (db : TDB) (m : Spec) (ops : List Op)
-    (hrep : Rep db m) (hns : ∀ op ∈ ops, NoSep op.pk) (hgood : GoodRun m (fun _ => .fresh) ops) :
+    (hrep : Rep db m) (hns : ∀ op ∈ ops, NoSep op.pk ∧ op.pk ≠ []) (hgood : GoodRun m (fun _ => .fresh) ops) :
     (run { db := db } ops).2 = (specRun m ops).2 ∧
     ∃ kvs, saveKVs (run { db := db } ops).1 = some kvs ∧ Rep (applyKVs db kvs) (specRun m ops).1 := by
   obtain ⟨hres, fl', hinv⟩ := run_inv db m hrep ops { db := db } m (fun _ => .fresh) (inv_init db m) hns hgood
   exact ⟨hres, inv_save db m hrep _ _ fl' hinv⟩
+
+/-- the same save keeps the db sorted and of table shape, for every good run (not only for
+distinct keys). -/
+theorem multi_op_keeps_shape (db : TDB) (m : Spec) (ops : List Op)
+    (hrep : Rep db m) (hns : ∀ op ∈ ops, NoSep op.pk ∧ op.pk ≠ []) (hgood : GoodRun m (fun _ => .fresh) ops)
+    (hs : C09.Sorted db) (hshape : Shape db) :
+    ∀ kvs, saveKVs (run { db := db } ops).1 = some kvs →
+      C09.Sorted (applyKVs db kvs) ∧ Shape (applyKVs db kvs) := by
+  intro kvs hk
+  obtain ⟨_, fl', hinv⟩ := run_inv db m hrep ops { db := db } m (fun _ => .fresh) (inv_init db m) hns hgood
+  exact inv_shape db m _ _ fl' hinv hs hshape kvs hk
+
+/-- HISTORIES: any sequence of batches, each a good run with respect to the map at its own last
+save, each followed by `Save`: every answer of every batch is the map's answer, no Save fails, and
+the final db encodes the final map (data and every index exact), sorted and of table shape — so
+`listIndex_exact` applies after every save of the history. -/
+theorem multi_save_refines (db : TDB) (m : Spec) (bs : List (List Op))
+    (hrep : Rep db m) (hs : C09.Sorted db) (hshape : Shape db)
+    (hns : ∀ b ∈ bs, ∀ op ∈ b, NoSep op.pk ∧ op.pk ≠ []) (hgood : GoodBatches m bs) :
+    ∃ db', runSaves db bs = some (db', (specSaves m bs).2) ∧
+      Rep db' (specSaves m bs).1 ∧ C09.Sorted db' ∧ Shape db' := by
+  induction bs generalizing db m with
+  | nil => exact ⟨db, rfl, hrep, hs, hshape⟩
+  | cons b rest ih =>
+    obtain ⟨hg1, hg2⟩ := hgood
+    have hnb := hns b List.mem_cons_self
+    obtain ⟨hres, kvs, hk, hrep'⟩ := multi_op_refines_partial db m b hrep hnb hg1
+    obtain ⟨hs', hshape'⟩ := multi_op_keeps_shape db m b hrep hnb hg1 hs hshape kvs hk
+    obtain ⟨db', h1, h2, h3, h4⟩ := ih (applyKVs db kvs) (specRun m b).1 hrep' hs' hshape'
+      (fun b' hb' => hns b' (List.mem_cons_of_mem _ hb')) hg2
+    refine ⟨db', ?_, h2, h3, h4⟩
+    simp only [runSaves, hk, h1, specSaves, Option.map_some, hres]
 
 /-! ### index lookups -/
 
@@ -299,6 +331,17 @@ example :
     ¬ GoodRun m1 (fun _ => .fresh) [.del p0, .add r0] ∧
     ¬ GoodRun m1 (fun _ => .fresh) [.del p0, .replace ⟨p0, v0, v1, [100]⟩] := by
   decide
+
+/-- non-vacuity of `multi_save_refines`: from the empty table, three saves — add p0; update p0
+(f1 changed) then delete it in one batch; add p0 again together with p1 — all batches good, the
+answers are the map's, and the run of the model goes through. -/
+example :
+    let bs : List (List Op) :=
+      [[.add r0], [.update ⟨p0, v1, v0, [101]⟩, .del p0], [.add r0, .add ⟨[112, 49], v0, v1, [102]⟩, .update ⟨[112, 50], v0, v0, [1]⟩]]
+    GoodBatches (fun _ => none) bs ∧
+    (runSaves [] bs).map (·.2) = some [[.ok], [.ok, .ok], [.ok, .ok, .notfound]] ∧
+    (specSaves (fun _ => none) bs).2 = [[.ok], [.ok, .ok], [.ok, .ok, .notfound]] := by
+  refine ⟨⟨by decide, by decide, by decide, trivial⟩, by decide, by decide⟩
 
 /-- REFUTED (S-C10a): `Del p0; Add p0` before a save — the map says the Add succeeds (the key is
 absent), the table answers dup.  Replayed on the code by corpus/C10/s_c10a.ops. -/
